@@ -207,6 +207,12 @@ INVARIANT Exclusive
                "uri": "stager_uri_classifier", "gen": "random_stager_uri", "gate": "find_staged_beacon"}[e["op"]]
         viol(opn, sorted(failed)[0], e)
     ctx.sample({"event": ev[len(gate_events)] if len(ev) > len(gate_events) else ev[0]})
+    # the capture loop around the gate (pcap.BeaconCapture) and the LRU mapping it pairs requests with
+    if have_pcap:
+        from vt.checks import xcapture
+
+        xcapture.lru_part(ctx)
+        xcapture.capture_part(ctx)
     ctx.notes["rule"] = ("tables: every (data,key) over {0,1,255} up to the bound, NetBIOS all bytes x offsets, all URIs over a small alphabet, "
                          "pack/unpack at boundary values of every width 1..8; events: seeded random inputs judged by CodecIO.Verdict; "
                          "distinct = inputs with non-empty data/key, classified URIs, pack values")
